@@ -21,6 +21,7 @@ import (
 func init() {
 	register("C19", "model_checking", func(r *ev.Run) {
 		opshellCampaign(r)
+		opLocksCampaign(r)
 		compositionLeg(r)
 		muteEndToEnd(r)
 	})
